@@ -318,6 +318,31 @@ def gen() -> None:
     text += f"Definition sdm_append_slash (search_path : list N) : bool :=\n  {sdm_append}.\n"
     text += f"Definition sdm_slash : list N := {_codes(sdm_slash)}.\n"
     text += f"Definition sdm_prefix (search_path path : list N) : bool :=\n  {sdm_prefix}.\n"
+    # ---- statement skeletons: everything the model / the oracles stand for that is not translated above is pinned as
+    # normalised source text (ast.unparse; layout, comments and docstrings do not matter), with holes where the translated
+    # expressions sit.  tools/pins/c14_paths.txt is the source coq/C14/Model.v was written against.
+    sdm_mod = px.load("middleware/shared_data.py")
+    wsgi_mod = px.load("wsgi.py")
+    holes_sj = {ast.unparse(f_rej.test): "<REJECT-CONDITION>", ast.unparse(f_norm.test): "<NORMALISE-GUARD>"}
+    holes_sdm = {ast.unparse(l_exact.test): "<EXACT-TEST>", ast.unparse(l_slash.test): "<APPEND-SEPARATOR-TEST>",
+                 ast.unparse(l_prefix.test): "<PREFIX-TEST>", ast.unparse(l_slash.body[0]): "search_path += <SEPARATOR>"}
+    send_file = px.find_def(utl, "send_file")
+    sf_path = [x for x in send_file.body if isinstance(x, ast.If) and "isinstance(path_or_file" in ast.unparse(x.test)]
+    sf_open = [x for x in ast.walk(send_file) if isinstance(x, ast.Assign) and ast.unparse(x.value).startswith("open(")]
+    if len(sf_path) != 1 or len(sf_open) != 1:
+        raise px.Unsupported("send_file: the path handling block or the open() call was not found")
+    sections = [
+        ("security.safe_join", px.skeleton(fn, holes_sj)),
+        ("utils.secure_filename", px.skeleton(sf)),
+        ("utils.send_from_directory", px.skeleton(sfd)),
+        ("utils.send_file: signature", ast.unparse(send_file.args)),
+        ("utils.send_file: path handling", ast.unparse(sf_path[0])),
+        ("utils.send_file: open", ast.unparse(sf_open[0])),
+        ("wsgi.get_path_info", px.skeleton(px.find_def(wsgi_mod, "get_path_info"))),
+        ("middleware.shared_data.SharedDataMiddleware", px.skeleton(px.find_class(sdm_mod, "SharedDataMiddleware"), holes_sdm)),
+    ]
+    px.check_pin("C14", "c14_paths.txt", "".join(f"## {n}\n{t}\n" for n, t in sections),
+                 "the source the C14 model stands for (safe_join / secure_filename / send_from_directory / send_file path handling / SharedDataMiddleware)")
     px.write_if_changed(os.path.join(COQ, "C14", "Gen.v"), text)
 
 
@@ -927,6 +952,10 @@ def main(chk: Check) -> None:
         "section variable nfkd (unicodedata.normalize('NFKD')) with contract: identity on ASCII strings; checked on all 128 ASCII characters and random ASCII strings every run",
         "str.split() white space = the interpreter's 29 code points (lib/Bytes.uni_ws)",
         "extraction ExtrOcamlBasic + tools/conv.ml + coq/C14/driver.ml, OCaml 4.13.1",
+        "statement pin tools/pins/c14_paths.txt: safe_join, secure_filename, send_from_directory, send_file's signature / path handling / open, "
+        "wsgi.get_path_info and the whole SharedDataMiddleware class as normalised source text, with holes at the translated conditions",
+        "validated differentially only (CPython library code, not werkzeug code, no pin): posixpath.normpath/join/isabs/basename, os.path.isfile, "
+        "unicodedata.normalize, mimetypes, importlib resource readers",
         "file-system resolution (symlinks, os.path.isfile, importlib resource readers) is runtime: os.path.isfile is a section variable of the "
         "send_from_directory / SharedDataMiddleware theorems; the model lists the candidate paths and the harness asks the real file system; "
         "the package resource reader is the `available` section variable of C14_shared_data_all_exports; the _root_path keyword of "
